@@ -94,3 +94,41 @@ PROPS["C09"] = dict(
     ],
     not_covered=["wall-clock timeout behaviour", "Response::from_stream (HTTP response parser) returning rather than panicking"],
 )
+
+
+_C07_HEADERS = ['c07_header_accept', 'c07_header_accept_charset', 'c07_header_accept_encoding', 'c07_header_accept_language', 'c07_header_access_control_request_method', 'c07_header_access_control_request_headers', 'c07_header_authorization', 'c07_header_cache_control', 'c07_header_connection', 'c07_header_content_encoding', 'c07_header_content_length', 'c07_header_content_type', 'c07_header_cookie', 'c07_header_date', 'c07_header_expect', 'c07_header_forwarded', 'c07_header_from', 'c07_header_host', 'c07_header_origin', 'c07_header_pragma', 'c07_header_referer', 'c07_header_upgrade', 'c07_header_user_agent', 'c07_header_via', 'c07_header_warning', 'c07_header_access_control_allow_origin', 'c07_header_access_control_allow_headers', 'c07_header_access_control_allow_methods', 'c07_header_age', 'c07_header_allow', 'c07_header_content_disposition', 'c07_header_content_language', 'c07_header_content_location', 'c07_header_etag', 'c07_header_expires', 'c07_header_last_modified', 'c07_header_link', 'c07_header_location', 'c07_header_server', 'c07_header_set_cookie', 'c07_header_transfer_encoding']
+
+PROPS["C07"] = dict(
+    level="proof",
+    steps=[
+        dict(kind="kani", crate="humphrey", module="in_app", tag="c07", jobs=8, harnesses=[
+            H("c07_status_code_u16_complete", "complete", "for all 65536 u16 codes: try_from accepts exactly the 39 modelled codes; code->variant->code and variant->code->variant are identities"),
+            H("c07_reason_phrases_registered", "complete", "reason phrase of each of the 39 codes is a phrase registered for that code (RFC 2616 / 7231 / 9110 wording), table written from the RFCs"),
+        ] + [H(n, "complete", "HeaderType::from(name) in every ASCII upper/lower-case mix (symbolic case mask) is the named variant and to_string() returns the canonical spelling", timeout=300) for n in _C07_HEADERS]),
+    ],
+    kani_functions=[dict(file="humphrey/src/http/status.rs", item="TryFrom<u16> for StatusCode, From<StatusCode> for u16, From<StatusCode> for &str", engine="kani"),
+                    dict(file="humphrey/src/http/headers.rs", item="From<&str> for HeaderType, ToString for HeaderType", engine="kani")],
+    assumptions=[],
+    not_covered=[
+        "Vec<u8>::from(Response) serialisation layout (status line built with format!; CBMC does not finish even on concrete data)",
+        "Response::from_stream (Content-Length and chunked), SetCookie formatting, Client and redirect following",
+        "the CRLF appended after a non-empty body (not counted by Content-Length) is therefore not decided",
+    ],
+)
+
+PROPS["C18"]["steps"].append(
+    dict(kind="kani", crate="humphrey_ws", module="in_ws", tag="c18", jobs=8, harnesses=[
+        H("c18_b64_alphabet", "complete", "the constant ALPHABET is RFC 4648 table 1 (discharges the assumption of the Verus unit c18_b64enc), all 64 entries", timeout=600),
+        H("c18_b64_decode_group_complete", "complete", "Base64 decode of one 4-symbol group over every ASCII byte in every position: RFC 4648 value, or Err for foreign symbols / misplaced padding", bound="one group (complete for a group)", timeout=600),
+        H("c18_b64_decode_bad_length_1", "complete", "input of length 1 (not a multiple of 4) over the alphabet is rejected", timeout=600),
+        H("c18_b64_decode_bad_length_2", "complete", "input of length 2 is rejected", timeout=600),
+        H("c18_b64_decode_bad_length_3", "complete", "input of length 3 is rejected", timeout=600),
+        H("c18_b64_decode_bad_length_5", "complete", "input of length 5 is rejected", timeout=600),
+        H("c18_b64_decode_padding_only_last", "complete", "a padded group followed by another group is rejected", bound="two groups", timeout=600),
+        H("c18_b64_decode_inverts_n1", "bounded", "decode(b64(x)) == x for every 1-byte x (b64 = RFC 4648 spec; encode == b64 is the Verus obligation)", bound="|x| = 1", timeout=600),
+        H("c18_b64_decode_inverts_n2", "bounded", "decode(b64(x)) == x, |x| = 2", bound="|x| = 2", timeout=600),
+        H("c18_b64_decode_inverts_n3", "bounded", "decode(b64(x)) == x, |x| = 3", bound="|x| = 3", timeout=600),
+        H("c18_b64_decode_inverts_n4", "bounded", "decode(b64(x)) == x, |x| = 4 (two groups)", bound="|x| = 4", timeout=600),
+        H("c18_b64_decode_inverts_n6", "bounded", "decode(b64(x)) == x, |x| = 6 (two groups)", bound="|x| = 6", timeout=600),
+        H("c18_sha1_padded_len_complete", "complete", "SHA-1 padded message length formula for every n < 2^56 (RFC 3174 section 4)"),
+    ]))
